@@ -21,8 +21,8 @@ from vlib import core
 
 FAMILIES = {
     #            family  L  workers
-    "quick": [("rte", 4), ("rte2", 3), ("rex", 4), ("rts", 9), ("rtsbig", 3), ("wa", 3), ("wf", 3)],
-    "thorough": [("rte", 5), ("rte2", 4), ("rex", 5), ("rts", 9), ("rtsbig", 4), ("wa", 4), ("wf", 4)],
+    "quick": [("rte", 4), ("rte2", 3), ("rex", 4), ("rts", 9), ("rtsbig", 3), ("utf8", 2), ("wa", 3), ("wf", 3)],
+    "thorough": [("rte", 5), ("rte2", 4), ("rex", 5), ("rts", 9), ("rtsbig", 4), ("utf8", 3), ("wa", 4), ("wf", 4)],
 }
 ID_FAMILIES = {"rte", "rte2", "rex", "wa", "wf"}
 INVARIANTS = "Correct NoBad CarrySound ProbeOnlyExactFit NotStuck Emit"
